@@ -178,7 +178,21 @@ Section C02.
     kstatic e = true -> cache_off o = false ->
     let n := ECached (CMem cid) e in
     mapM store (fun x => eval x o) (pre ++ n :: mid ++ n :: post) s = (Ok vs, s', l) ->
-    exists la l1 lb lc, l = la ++ l1 ++ lb ++ hit_log cid e o ++ lc /\ code_free (hit_log cid e o) = true.
+    exists va v1 vm w vp s1 s2 s4 la l1 lb lc,
+      (* the run decomposes: [pre], the first occurrence, [mid] ... *)
+      mapM store (fun x => eval x o) pre s = (Ok va, s1, la) /\
+      eval n o s1 = (Ok v1, s2, l1) /\
+      mapM store (fun x => eval x o) mid s2 = (Ok vm, s4, lb) /\
+      mapM store (fun x => eval x o) (pre ++ n :: mid) s = (Ok (va ++ v1 :: vm), s4, la ++ l1 ++ lb) /\
+      (* ... in the state reached after [pre ++ n :: mid] the second occurrence IS a hit: stored
+         value, store unchanged, log = hit_log (reads, exists(true), reads, get(true)) ... *)
+      eval n o s4 = (Ok w, s4, hit_log cid e o) /\
+      (* ... then [post], from that same store; values and log of the whole run are the
+         concatenations *)
+      mapM store (fun x => eval x o) post s4 = (Ok vp, s', lc) /\
+      vs = va ++ v1 :: vm ++ w :: vp /\
+      l = la ++ l1 ++ lb ++ hit_log cid e o ++ lc /\
+      code_free (hit_log cid e o) = true.
   Proof. exact (shared_dependency_runs_once cfg ucall rfuel site_ok). Qed.
 
   (** (4) "effects run once per body execution, after it and with its value": the log of a
@@ -348,3 +362,16 @@ Example C02_fragment_inhabited :
           (reads_of (fp_log cfg0 (ucall_of []) 40 (fun _ _ => true) (ds_inner dtop) (ds_opts dtop o1))) = true.
 Proof. vm_compute. repeat split; try reflexivity. discriminate. Qed.
 Print Assumptions C02_fragment_inhabited.
+
+(** the hypotheses of [C02_shared_dependency_runs_once] are satisfiable: siblings
+    [const; n; Option; n; const] with n a cached body reading K10 — the second [n] logs only
+    ex1T get1T and the body c100 is called once *)
+Definition nshared : expr := ECached (CMem 1) (body 100 [EOption K10 None None]).
+Example C02_shared_dependency_instance :
+  kstatic (body 100 [EOption K10 None None]) = true /\ cache_off cfg0 o1 = false /\
+  let '(r, _, l) := mapM store (fun x => eval store mem_find mem_store cfg0 (ucall_of []) 40 (fun _ _ => true) x o1)
+                      ([EValue (VJ (JInt 0))] ++ nshared :: [EOption K10 None None] ++ nshared :: [EValue (VJ (JInt 9))]) [] in
+  r = Ok [VJ (JInt 0); VT 100 [VJ (JInt 1)]; VJ (JInt 1); VT 100 [VJ (JInt 1)]; VJ (JInt 9)] /\
+  String.concat " " (flat_map show_event l) = "ex1F c100(1) set1 get1T ex1T get1T".
+Proof. vm_compute. repeat split; reflexivity. Qed.
+Print Assumptions C02_shared_dependency_instance.
